@@ -55,7 +55,9 @@ static float vf_getf(char const * n, long i) {unsigned b = (unsigned)vf_get(n, i
 #define SET_LONG(n)  n = (long)vf_get(#n, -1)
 #define SET_DBL(n)   n = vf_getd(#n, -1)
 #define VF_WITNESS() do { fprintf(stderr, "VF: harness end reached\n"); } while (0)
-#define VF_MAIN int main(void)
+static void vf_native_body(void);
+int main(void) { vf_native_body(); return 0; }      /* gnu89: falling off main would return an unspecified status */
+#define VF_MAIN static void vf_native_body(void)
 #define __CPROVER_assume(c) VF_ASSUME(c)
 #else
 int nondet_int(void); unsigned nondet_uint(void); long nondet_long(void);
